@@ -13,7 +13,7 @@ counts: no instruction calls an operator object that was not initialised (`… n
 right-hand side.  Property theorems only; helper lemmas in `GMGProofs/Lemmas/Setup*.lean`.
 -/
 namespace C20s
-open Cycle Setup
+open MGCycle Setup
 
 /-- the smoother switch `setup()` leaves is consistent with the mode -/
 theorem fgs_after_setup (mode : Nat) : fgsConsistent mode (fgsAfterSetup mode) = true := by
@@ -55,13 +55,13 @@ theorem stop_ok (c : Setup.Cfg) (h2 : 2 ≤ c.levels) :
 
 /-- **one top-level cycle** of any type on the finest level; holds for every mode value (no `extrapMode ≤ 3` needed:
     the `default:` branch of `setup()` creates both smoothers on level 0) -/
-theorem cycle_ok (c : Setup.Cfg) (cy : Cycle.Cfg) (hl : cy.levels = c.levels) (h2 : 2 ≤ c.levels)
+theorem cycle_ok (c : Setup.Cfg) (cy : MGCycle.Cfg) (hl : cy.levels = c.levels) (h2 : 2 ≤ c.levels)
     (k : Kind) (fgs : Bool) (hf : fgsConsistent c.extrapMode fgs = true) :
     progOK c (cycleAt cy k (c.extrapMode != 0) fgs 0) = true :=
   cycleAt0_ok c cy hl h2 k fgs hf
 
 /-- **the start-up** (`initializeSolution`: zero start, or FMG from the coarsest level with cycles on every level) -/
-theorem init_ok (c : Setup.Cfg) (cy : Cycle.Cfg) (hl : cy.levels = c.levels) (h2 : 2 ≤ c.levels)
+theorem init_ok (c : Setup.Cfg) (cy : MGCycle.Cfg) (hl : cy.levels = c.levels) (h2 : 2 ≤ c.levels)
     (fmgKind : Kind) (fmgIters : Nat) (fgs : Bool) (hf : fgsConsistent c.extrapMode fgs = true) :
     progOK c (initSolution cy c.fmg fmgKind fmgIters (c.extrapMode != 0) fgs (c.levels - 1)) = true := by
   unfold initSolution
@@ -78,7 +78,7 @@ theorem init_ok (c : Setup.Cfg) (cy : Cycle.Cfg) (hl : cy.levels = c.levels) (h2
       fmgLoop_ok c cy hl h2 hfmg fmgKind fmgIters fgs hf (c.levels - 1) (by omega), Bool.and_true]
 
 /-- no program of `solve()` writes a level right-hand side (so what is read is what `setup()` built), stated on the IR -/
-theorem rhs_never_written (cy : Cycle.Cfg) (k : Kind) (ex fgs : Bool) (d : Nat) :
+theorem rhs_never_written (cy : MGCycle.Cfg) (k : Kind) (ex fgs : Bool) (d : Nat) :
     ∀ i ∈ cycleAt cy k ex fgs d, ∀ r ∈ Setup.writes i, r.2 ≠ Buf.rhs := by
   intro i hi r hr
   have h := cycleAt_noRhsWrite cy k ex fgs d
